@@ -45,6 +45,7 @@ RULE = ('suite: the repository\'s own test suite with receiver and '
         'the schedule.')
 RULE += (' Queries also run on receivers written to disk and reopened (a file that cannot be read after the query is a violation); interpSigma also with a model top of its own; programs on IOAPI files whose TFLAG was supplied by the caller.')
 RULE += (" Every eighth program and every fifth query starts from the object one of the library's READERS returns for a valid image written by the independent codecs (all CAMx memory-mapped and record readers, bpch1, bpch2, arlpackedbit, ffi1001); the gridded, boundary, land-use and bpch1 memory maps are opened for update (mode='r+') in half of those programs, so that anything sharing the map could change the receiver.")
+RULE += (' What a query returns is written into and the query repeated: the second answer must equal the first (no hidden state shared with the answer). After a program on a receiver opened from disk the source is closed: the files derived from it must be unchanged.')
 ASSUMPTIONS = [
     'getVarlist() with its default update=True is a documented mutator and '
     'is not treated as a query',
